@@ -37,6 +37,16 @@ func cmdC09(r *RNG, n int, e *Emitter, args []string) {
 			if r.Intn(4) == 0 { // horizontal segment
 				open[k][len(open[k])-1].Y = open[k][len(open[k])-2].Y
 			}
+			if r.Intn(3) == 0 { // horizontal segments anywhere, the first one included
+				for j := 1; j < len(open[k]); j++ {
+					if r.Intn(3) == 0 {
+						open[k][j].Y = open[k][j-1].Y
+					}
+				}
+				if r.Bool() {
+					open[k][1].Y = open[k][0].Y
+				}
+			}
 		}
 		ct := clip.ClipType(1 + r.Intn(4))
 		fr := clip.FillRule(r.Intn(4))
